@@ -51,7 +51,7 @@ pub fn plan_for(prop: &str, tier: Tier, seed: u64, verif_dir: &str) -> Option<Pl
 			property: "C02".into(),
 			tier,
 			seed,
-			jobs: vec![job("lnsim", "forward", n(1500, 30000))],
+			jobs: vec![job("lnsim", "forward", n(1500, 15000))],
 			level: "exploration".into(),
 			rule: "profile `forward`: 3 real nodes in a line or triangle (1-4 channels, all three channel types), payments routed through a middle node (plus direct ones), each message delivered individually in a seeded order, claims/fails by the recipient, fee updates, disconnects, monitor writes completing late (async Persist) or via deferred ChainMonitor flush, crashes of any node between or inside API calls with in-flight monitor writes independently lost or surviving, restart from the latest ChannelManager snapshot (taken at seeded PersistMgr actions) and durable monitors, user force-closes; then settle (quiesce) and liquidate (close everything on a UTXO/mempool/script-verifying chain model, mine until all monitors drain, sweep). Oracles during the run: C02-3 forwarded HTLC matches an inbound HTLC and keeps at least the advertised fee and CLTV delta, C02-5 PaymentForwarded truthful; at the end: C02-W wealth (each node owns on chain at least what PaymentClaimed/PaymentForwarded/PaymentSent told it, less on-chain fees and its dust allowance), no library panic. One evaluation = one seeded run (config, schedule and faults all drawn from the run seed; replay executes the recorded action trace). non-trivial = the run executed at least one payment/HTLC to a terminal state or fired at least one fault; distinct = distinct FNV hash of the executed (action kind, actor) sequence.".into(),
 			assumptions: t_assumptions.clone(),
@@ -62,7 +62,7 @@ pub fn plan_for(prop: &str, tier: Tier, seed: u64, verif_dir: &str) -> Option<Pl
 			property: "C03".into(),
 			tier,
 			seed,
-			jobs: vec![job("lnsim", "forward", n(1500, 30000))],
+			jobs: vec![job("lnsim", "forward", n(1500, 15000))],
 			level: "exploration".into(),
 			rule: "profile `forward` (see C02 for the world and fault mix: 3 real nodes, individually scheduled messages, async/deferred persistence, crashes with stale ChannelManager snapshots, on-chain resolution). Oracles: C03-1 PaymentSent only with the recipient's preimage, C03-2 recipient paid => sender sees PaymentSent, C03-3 every payment has a terminal event after settle+liquidation, C03-4 amount/fee of PaymentSent equal what left the sender, C03-5 terminal events neither repeated within an incarnation nor contradictory, C03-6 payments absent after a stale restart are really gone; sender side of the wealth oracle. One evaluation = one seeded run (config, schedule and faults all drawn from the run seed; replay executes the recorded action trace). non-trivial = the run executed at least one payment/HTLC to a terminal state or fired at least one fault; distinct = distinct FNV hash of the executed (action kind, actor) sequence.".into(),
 			assumptions: t_assumptions.clone(),
@@ -74,9 +74,9 @@ pub fn plan_for(prop: &str, tier: Tier, seed: u64, verif_dir: &str) -> Option<Pl
 			tier,
 			seed,
 			jobs: vec![
-				job("lnsim", "receive", n(600, 20000)),
-				job("lnsim", "offchain", n(1500, 20000)),
-				job("lnsim", "deadlines", n(600, 20000)),
+				job("lnsim", "receive", n(600, 10000)),
+				job("lnsim", "offchain", n(1500, 15000)),
+				job("lnsim", "deadlines", n(600, 10000)),
 			],
 			level: "exploration".into(),
 			rule: "profiles `receive` (3 real nodes, world and fault mix of C02's `forward` profile: direct, forwarded and two-part payments, claims and explicit fails by the recipient in seeded order relative to message delivery, crashes and restarts of the recipient with stale ChannelManager snapshots, on-chain resolution; a third of the payments carry a sender-side flaw the recipient must refuse: a flipped bit in the payment secret, the secret of another payment, less than the registered amount, or an onion total larger than the parts actually sent, which must time out), `offchain` (2-3 nodes, no chain activity, boundary amounts) and `deadlines` (see C08: final CLTV values around the acceptance boundary, parts of one payment with different expiries, claims at every height relative to the advertised deadline). Oracles: C04-1 PaymentClaimable only at the registered recipient, for the complete amount, with a claim window, never for a flawed payment; C04-3 the preimage leaves the node only after claim_funds, PaymentClaimed follows claim_funds made above the deadline and reports the full amount, never without claim_funds; recipient side of the wealth oracle (what PaymentClaimed reported is owned on chain after liquidation). One evaluation = one seeded run (config, schedule and faults all drawn from the run seed; replay executes the recorded action trace). non-trivial = the run executed at least one payment/HTLC to a terminal state or fired at least one fault; distinct = distinct FNV hash of the executed (action kind, actor) sequence.".into(),
@@ -90,10 +90,10 @@ pub fn plan_for(prop: &str, tier: Tier, seed: u64, verif_dir: &str) -> Option<Pl
 			seed,
 			jobs: vec![
 				job("lnsim", "offchain", n(2500, 40000)),
-				job("lnsim", "forward", n(400, 10000)),
-				job("lnsim", "crash", n(400, 10000)),
-				job("lnsim", "tamper", n(400, 10000)),
-				job("lnsim", "deadlinecrash", n(400, 10000)),
+				job("lnsim", "forward", n(400, 5000)),
+				job("lnsim", "crash", n(400, 5000)),
+				job("lnsim", "tamper", n(400, 6000)),
+				job("lnsim", "deadlinecrash", n(400, 5000)),
 			],
 			level: "exploration".into(),
 			rule: "profiles `offchain`, `forward`, `crash`: every call that reaches the signer seam (sign_counterparty_commitment, validate_holder_commitment, release_commitment_secret, sign_holder_commitment, HTLC signing) and every transaction handed to the broadcaster is recorded and fed to a per-channel revocation automaton written from BOLT 2. Oracles: C05-1 a secret is released only after a newer holder commitment was validated, C05-2 a revoked holder commitment (or HTLC tx on it) is never signed, re-validated or broadcast, nor revoked after broadcast, C05-3 at most one unrevoked counterparty commitment is outstanding when signing and numbers advance by one, C05-4 revoke_and_ack carries exactly the released secret and the right next point; LDK's own TestChannelSigner policy assertions are treated as oracle failures. Crashes restore signer state from the durable monitors/manager only. Profile `tamper` adds a Byzantine peer: a revoke_and_ack whose secret was altered in flight (bit flip, or an unrelated valid scalar) or a commitment_signed whose signature was altered is delivered; C05-5 the receiver must fail the channel instead of advancing (it never stores a secret that does not match the announced commitment point), after which the run continues on chain with all other oracles armed. Profile `deadlinecrash` (see C08) lets the chain pass HTLC expiries so that ChannelMonitors broadcast holder commitments on their own, with crashes in between. One evaluation = one seeded run (config, schedule and faults all drawn from the run seed; replay executes the recorded action trace). non-trivial = the run executed at least one payment/HTLC to a terminal state or fired at least one fault; distinct = distinct FNV hash of the executed (action kind, actor) sequence.".into(),
@@ -105,7 +105,7 @@ pub fn plan_for(prop: &str, tier: Tier, seed: u64, verif_dir: &str) -> Option<Pl
 			property: "C06".into(),
 			tier,
 			seed,
-			jobs: vec![job("lnsim", "justice", n(1500, 30000))],
+			jobs: vec![job("lnsim", "justice", n(1500, 15000))],
 			level: "exploration".into(),
 			rule: "profile `justice`: 3 real nodes build a seeded off-chain history (3-16 payments in quick, up to 60 in thorough: direct and forwarded, dust and non-dust HTLCs in both directions, claims, fails, fee updates, disconnects, async monitor persistence, occasional crash/restart); after every action each node's fully signed holder commitment and (non-anchor channels) its signed HTLC transactions are archived through the test-only ChannelMonitor::unsafe_get_latest_holder_commitment_txn. In two thirds of the runs after quiescence, in one third in the middle of the traffic, one node turns cheater: a seeded revoked commitment from its archive (any age) is handed to the miner, a seeded subset of its HTLC-success/timeout transactions in the same block or later, and the victim learns 0-3 blocks late. The chain then runs until every monitor has drained, under a seeded plan of confirmation delays (blocks that leave the mempool alone, forcing fee bumps), fee-estimator moves (also collapsing in the middle of a stall), shallow reorganisations (depth 1-5) and reloads of any node's monitors from disk. Oracles: C06/C07-1 every transaction the victim broadcasts is consensus-valid and final (libbitcoinconsensus against the UTXO model); C06-2 walking the spend tree of the revoked commitment, every non-anchor output (and every output of the cheater's confirmed second-stage transactions) ends in the victim's scripts, spent before the cheater's to_self_delay expired; C06/C07-5 re-issued claims never lower their fee; C06/C07-4 claimable balances drain and SpendableOutputs are swept with the node's keys; wealth lower bound for the victim. One evaluation = one seeded run (config, schedule and faults all drawn from the run seed; replay executes the recorded action trace). non-trivial = a revoked commitment was confirmed; distinct = distinct FNV hash of the executed (action kind, actor) sequence.".into(),
 			assumptions: t_assumptions.clone(),
@@ -121,7 +121,7 @@ pub fn plan_for(prop: &str, tier: Tier, seed: u64, verif_dir: &str) -> Option<Pl
 			property: "C07".into(),
 			tier,
 			seed,
-			jobs: vec![job("lnsim", "onchain", n(1000, 25000)), job("lnsim", "forward", n(400, 6000))],
+			jobs: vec![job("lnsim", "onchain", n(1000, 12000)), job("lnsim", "forward", n(400, 3000))],
 			level: "exploration".into(),
 			rule: "profiles `onchain` and `forward` (3 real nodes; channels are force-closed by either side at seeded points or by the stale-manager rule after crashes, with HTLCs pending in both directions; a channel may also be closed by a node's previous, still unrevoked commitment (archived as in C06; that node then stops and its peer must cope); every remaining channel is force-closed in the liquidation phase and the chain is mined until every monitor has drained, under a seeded plan of confirmation delays, fee-estimator moves, shallow reorganisations and monitor reloads; anchor CPFP through BumpTransaction events served by a simulated wallet, transactions relayed to the mempool in seeded order and delay). The chain model verifies every broadcast transaction with libbitcoinconsensus against its UTXO set (scripts, amounts, locktime, BIP68) and applies mempool replacement rules. Oracles: C07-1 every broadcast tx is consensus-valid, final at the height it is offered for, and creates no money; C07-4 SpendableOutputs refer to confirmed outputs with the right value, are spendable by the node's keys (sweep verified by script) and claimable balances drain to nothing; wealth oracle; LDK's debug assertions in onchaintx.rs/package.rs count as oracle failures. One evaluation = one seeded run (config, schedule and faults all drawn from the run seed; replay executes the recorded action trace). non-trivial = the run executed at least one payment/HTLC to a terminal state or fired at least one fault; distinct = distinct FNV hash of the executed (action kind, actor) sequence.".into(),
 			assumptions: t_assumptions.clone(),
@@ -132,7 +132,7 @@ pub fn plan_for(prop: &str, tier: Tier, seed: u64, verif_dir: &str) -> Option<Pl
 			property: "C08".into(),
 			tier,
 			seed,
-			jobs: vec![job("lnsim", "deadlines", n(2000, 40000)), job("lnsim", "deadlinecrash", n(600, 12000))],
+			jobs: vec![job("lnsim", "deadlines", n(2000, 20000)), job("lnsim", "deadlinecrash", n(600, 6000))],
 			level: "exploration".into(),
 			rule: "profile `deadlines`: 3 real nodes, direct and forwarded payments (dust and non-dust, MPP), claims and fail-backs by the recipient at seeded moments relative to the advertised claim_deadline, while the chain advances up to ~400 blocks past HTLC expiries and one peer is gone for good (its node never returns) or cut off from the network and possibly healed later. Blocks are processed one at a time under the environment the property assumes: every live node sees each block when it is mined, responsive connected peers exchange all pending messages, monitor writes complete and broadcast transactions confirm within the block (T1-T3 at one block). Oracles: C08-3 after each fully processed block no channel a node still treats as open carries an outbound HTLC (known to a commitment) with expiry + LATENCY_GRACE_PERIOD_BLOCKS(3) <= height, nor an inbound HTLC the application claimed more than a block ago with expiry <= height + CLTV_CLAIM_BUFFER(36); C08-4 a ChannelClosed with reason HTLCsTimedOut is only reported when some HTLC of that channel had reached one of these deadlines (no early close); C08-5 a channel whose two peers were responsive throughout is never closed for an HTLC timeout (the upstream HTLC of a forward to a silent peer is failed back in time); C08-2 claim_funds called strictly below claim_deadline produces PaymentClaimed; C04-1 PaymentClaimable always leaves a claim window; wealth oracle after liquidation for every node that was not gone (a silent peer costs at most the HTLC's own channel, never the upstream HTLC). Job `deadlinecrash` adds crashes and restarts (then C08-5 only judges channels whose peers never restarted). One evaluation = one seeded run (config, schedule and faults all drawn from the run seed; replay executes the recorded action trace). non-trivial = at least one payment reached a terminal event or one fault fired; distinct = distinct FNV hash of the executed (action kind, actor) sequence.".into(),
 			assumptions: t_assumptions.clone(),
@@ -147,7 +147,7 @@ pub fn plan_for(prop: &str, tier: Tier, seed: u64, verif_dir: &str) -> Option<Pl
 			property: "C09".into(),
 			tier,
 			seed,
-			jobs: vec![job("lnsim", "asyncpersist", n(3000, 60000))],
+			jobs: vec![job("lnsim", "asyncpersist", n(3000, 30000))],
 			level: "exploration".into(),
 			rule: "profile `asyncpersist`: every node's Persist implementation returns InProgress for a seeded subset of calls (switching from Completed to InProgress at any time, never back without restart), completions are delivered in seeded order and delay, including while disconnected; some nodes use the deferred ChainMonitor with seeded flush points; crashes lose or keep in-flight writes independently. The Watch tap records each update_id and the simulated disk what is durable. Oracles: C09-1 update ids per channel are consecutive; C09-2 no commitment_signed, revoke_and_ack, update_fulfill_htlc, funding_signed/channel_ready leaves the node (observed at the message seam) before the monitor update it depends on, and all earlier ones, are durable. One evaluation = one seeded run (config, schedule and faults all drawn from the run seed; replay executes the recorded action trace). non-trivial = the run executed at least one payment/HTLC to a terminal state or fired at least one fault; distinct = distinct FNV hash of the executed (action kind, actor) sequence.".into(),
 			assumptions: t_assumptions.clone(),
@@ -159,9 +159,9 @@ pub fn plan_for(prop: &str, tier: Tier, seed: u64, verif_dir: &str) -> Option<Pl
 			tier,
 			seed,
 			jobs: vec![
-				job("lnsim", "crashsweep", n(16, 400)),
-				job("lnsim", "crash", n(400, 20000)),
-				job("lnsim", "asynccrash", n(400, 20000)),
+				job("lnsim", "crashsweep", n(16, 200)),
+				job("lnsim", "crash", n(400, 8000)),
+				job("lnsim", "asynccrash", n(400, 8000)),
 			],
 			level: "fault_enumeration".into(),
 			rule: "two jobs. `crashsweep`: a seeded base scenario (profile crash) is recorded, then re-executed once per crash point k = every Persist call of every node (freeze-and-discard inside the k-th call, with the write either lost or surviving) and once per action boundary, each followed by restart, settle and liquidation - an enumeration of the crash points of that scenario. `crash`: seeded runs with several crashes (also during recovery), ChannelManager snapshots of seeded staleness; `asynccrash`: the same with two thirds of the nodes persisting asynchronously and a third behind a deferred ChainMonitor, so that most crashes find monitor writes in flight. Oracles: C10-1 monitors and manager deserialize, restart does not panic; C10-2 a channel whose monitor is ahead is closed not resumed; all C02/C03/C04/C05/C07 oracles stay armed after the restart (revoked state never signed or broadcast, payments reach truthful terminal events, wealth). One evaluation = one seeded run (config, schedule and faults all drawn from the run seed; replay executes the recorded action trace). non-trivial = the run executed at least one payment/HTLC to a terminal state or fired at least one fault; distinct = distinct FNV hash of the executed (action kind, actor) sequence.".into(),
@@ -173,7 +173,7 @@ pub fn plan_for(prop: &str, tier: Tier, seed: u64, verif_dir: &str) -> Option<Pl
 			property: "C11".into(),
 			tier,
 			seed,
-			jobs: vec![job("lnsim", "chainstyle", n(1200, 25000))],
+			jobs: vec![job("lnsim", "chainstyle", n(1200, 12500))],
 			level: "exploration".into(),
 			rule: "profile `chainstyle`: the live nodes receive the chain through a seeded delivery style (Listen full blocks, Listen filtered blocks, Confirm with transactions_confirmed before or after best_block_updated, per-block or batched, with transaction_unconfirmed or blocks_disconnected on reorgs) while shadow ChannelMonitors - clones made through serialisation - are fed the same chain in every other style and, at seeded points, reloaded. Reorgs of depth 1-5 (< ANTI_REORG_DELAY) remove and re-mine or replace transactions. Oracles: C11-1 best block, claimable balances and the set of watched (reorg-sensitive) txids agree between styles after each block; C11-2 no SpendableOutputs before 6 confirmations; panics while delivering in another style. One evaluation = one seeded run (config, schedule and faults all drawn from the run seed; replay executes the recorded action trace). non-trivial = the run executed at least one payment/HTLC to a terminal state or fired at least one fault; distinct = distinct FNV hash of the executed (action kind, actor) sequence.".into(),
 			assumptions: t_assumptions.clone(),
@@ -184,7 +184,7 @@ pub fn plan_for(prop: &str, tier: Tier, seed: u64, verif_dir: &str) -> Option<Pl
 			property: "C12".into(),
 			tier,
 			seed,
-			jobs: vec![job("lnsim", "roundtrip", n(250, 8000)), job("gossipsim", "mixed", n(15000, 200000))],
+			jobs: vec![job("lnsim", "roundtrip", n(250, 4000)), job("gossipsim", "mixed", n(15000, 200000))],
 			level: "exploration".into(),
 			rule: "profile `roundtrip`: during a `forward`-style run (payments, crashes, async persistence, on-chain closes), at seeded points every live ChannelMonitor, every ChannelMonitorUpdate seen at the Watch tap and the ChannelManager are written and read back: C12-a monitor == read(write(monitor)) (LDK's own field-wise equality, hook H3) also after a second trip and after applying the next update to both copies, updates re-serialise identically; C12-b the reloaded manager lists the same channels and payments; C12-c the stored bytes are then read through a fault-injecting reader (truncation at every seeded offset, io::Error, bit flips): decoding must return Err or a value, never panic, and never accept a truncated monitor. Job gossipsim/`mixed` (see C17) adds the network graph: at seeded points of gossip histories (P2P, RGS snapshots, pruning) the graph is written and read back, C12-d read(write(g)) == g under NetworkGraph's own PartialEq, same public view, and the copy serialises again to the same length. One evaluation = one seeded run (config, schedule and faults all drawn from the run seed; replay executes the recorded action trace). non-trivial = the run executed at least one payment/HTLC to a terminal state or fired at least one fault; distinct = distinct FNV hash of the executed (action kind, actor) sequence.".into(),
 			assumptions: t_assumptions.clone(),
@@ -206,7 +206,7 @@ pub fn plan_for(prop: &str, tier: Tier, seed: u64, verif_dir: &str) -> Option<Pl
 			property: "C14".into(),
 			tier,
 			seed,
-			jobs: vec![job("lnsim", "onionline", n(5000, 100000))],
+			jobs: vec![job("lnsim", "onionline", n(5000, 50000))],
 			level: "exploration".into(),
 			rule: "profile `onionline`: a line of 3-7 real nodes (one channel per link, all channel types, per-node fees and CLTV deltas drawn per run); payments over 1..n-1 hops in either direction, individually scheduled message delivery, asynchronous monitor persistence, occasional disconnects; per payment optionally exactly one forwarding hop is under-paid by 1 msat of fee or 1 block of CLTV delta (that hop must refuse), the recipient claims or fails back, and up to three update_add_htlc messages per run are altered in flight on a seeded hop (a bit of the 1300-byte hop data, a bit of the HMAC, the ephemeral key replaced, or a bit of the payment hash). Oracles: C14-1 every update_add_htlc a hop emits carries exactly the amount (C02-3 arithmetic) and the cltv_expiry the sender's route prescribes for that hop, and the last hop shows the payment claimable for the full amount; C14-2 an altered packet is refused by the node that receives it: no later hop ever emits an update_add_htlc for it and the recipient is never shown PaymentClaimable; C14-3 the sender's PaymentPathFailed names the channel of the failing hop: the altered link, the outgoing channel of the under-paid forwarder (retryable), or a permanent failure when the recipient refused. Not covered here (no schedule or fault in them): blinded tails, keysend/custom TLV sizes, maximum-length 20+-hop packets, hold-time attribution data. One evaluation = one seeded run (config, schedule and faults all drawn from the run seed; replay executes the recorded action trace). non-trivial = at least one payment reached a terminal event or one fault fired; distinct = distinct FNV hash of the executed (action kind, actor) sequence.".into(),
 			assumptions: t_assumptions.clone(),
